@@ -65,6 +65,14 @@ void h_unstash(void) {
     V_COVER("unstash-one", r == 1 && vin_len == 1); V_COVER("unstash-none-stashed", r == 0 && vin_stashq_len == 0); V_COVER("unstash-refused", r < 0 && !vin_null_mod);
     V_CANARY();
 }
+void h_new_evt(void) {
+    build();
+    if (vin_has_src) { g_src = malloc(sizeof *g_src); __CPROVER_assume(g_src != NULL); g_src->flags = (m_src_flags)vin_sflags; g_src->type = M_SRC_TYPE_TMR; } else g_src = NULL;
+    g_alloc_fails = false;      /* allocation failure is not modelled in the core units */
+    evt_priv_t *e = new_evt(g_src);
+    V_COVER("newevt-with-src", e != NULL && g_src != NULL); V_COVER("newevt-no-subscription", e != NULL && g_src == NULL);
+    V_CANARY();
+}
 void h_set_batch_size(void) {
     build();
     int r = m_mod_set_batch_size(vin_null_mod ? NULL : g_mod, vin_len);
